@@ -102,6 +102,58 @@ func Check(file []byte, p Pos) []Disagreement {
 	return out
 }
 
+// OffsetOf is the inverse of LineCol: the byte offset of character col of line
+// line (both 1-based), or ok=false if the file has no such line or the line is
+// shorter than col-1 characters or not valid UTF-8 up to there.
+func OffsetOf(file []byte, line, col int) (off int, ok bool) {
+	if line < 1 || col < 1 {
+		return 0, false
+	}
+	pos := 0
+	for l := 1; l < line; l++ {
+		i := bytes.IndexByte(file[pos:], '\n')
+		if i < 0 {
+			return 0, false
+		}
+		pos += i + 1
+	}
+	for c := 1; c < col; c++ {
+		if pos >= len(file) || file[pos] == '\n' {
+			return 0, false
+		}
+		r, n := utf8.DecodeRune(file[pos:])
+		if r == utf8.RuneError && n == 1 {
+			return 0, false
+		}
+		pos += n
+	}
+	return pos, true
+}
+
+// Relation says where the reported line:column lies relative to the reported
+// byte range, for a position whose line:column and Start disagree:
+//
+//	inside  — line:column denote a byte X with Start < X <= End (the position
+//	          of a token inside the node's own range, e.g. its operator)
+//	before  — X < Start
+//	after   — X > End
+//	nowhere — the file has no such line:column
+func Relation(file []byte, p Pos) string {
+	x, ok := OffsetOf(file, p.Line, p.Column)
+	if !ok {
+		return "nowhere"
+	}
+	switch {
+	case x < p.Start:
+		return "before"
+	case x > p.End:
+		return "after"
+	case x == p.Start:
+		return "same" // only reachable through the BOM / CR tolerances
+	}
+	return "inside"
+}
+
 var (
 	reQuoted = regexp.MustCompile("\"(?:[^\"\\\\]|\\\\.)*\"|'(?:[^'\\\\]|\\\\.)*'|`[^`]*`|U\\+[0-9A-Fa-f]+")
 	reDigits = regexp.MustCompile(`[0-9]+`)
